@@ -28,7 +28,7 @@ def word_strategy():
 
 def trees_strategy(max_tokens):
     return S.tree_model(max_tokens=max_tokens, disc=0.3, words=word_strategy(),
-                        pos=st.sampled_from(["NN", "VB", "PRELS", "$,", "$("]), max_arity=4)
+                        pos=st.sampled_from(["NN", "VB", "PRELS", "$,", "$(", "PREL", "S", "N"]), max_arity=4)   # incl. tags that are parts of other tags
 
 
 def run(case):
@@ -134,7 +134,7 @@ def gen(ctx):
     steps = st.one_of(st.sampled_from(OPS).map(lambda o: [o]), st.tuples(st.just("insert"), st.integers(0, 20), st.sampled_from([",", "(", '"', "x"])).map(list),
                       st.tuples(st.just("delete"), st.integers(0, 20)).map(list))
     strategy = st.fixed_dictionaries({"op": st.sampled_from(OPS), "tree": trees_strategy(9 if quick else 13),
-                                      "relc": st.sampled_from([None, None, "PRELS"]),
+                                      "relc": st.sampled_from([None, None, "PRELS", "PRELS", "NN"]),
                                       "pre": st.one_of(st.just([]), st.just([]), st.just([]), st.lists(steps, min_size=1, max_size=3))})
 
     def body(case):
